@@ -192,7 +192,7 @@ impl PoolGen {
         }
     }
 
-    /// deterministic prefix: seven pools sharing denoms, funded, so that every run covers both
+    /// deterministic prefix: eight pools sharing denoms, funded, so that every run covers both
     /// pool types, 2/3/4 assets and mixed decimals regardless of the seed.
     pub fn scripted_prefix(&mut self, w: &World) {
         let u0 = w.users[0].clone();
@@ -207,6 +207,8 @@ impl PoolGen {
         // a nearly worthless 18-decimals token against a precious 6-decimals one: the base-unit
         // price lies below 1e-18
         s.push(create_pool_op(w, &u0, &["ueth", "uusdt"], PoolType::ConstantProduct, pool_fee(0, 30, 0, &[]), Some("lop")));
+        // a very large pool of two 18-decimals tokens (a trillion whole tokens a side)
+        s.push(create_pool_op(w, &u1, &["udai", "ueth"], PoolType::ConstantProduct, pool_fee(5, 25, 0, &[]), Some("big")));
         let t6 = 10u128.pow(6);
         let t8 = 10u128.pow(8);
         let t18 = 10u128.pow(18);
@@ -217,6 +219,7 @@ impl PoolGen {
         s.push(provide_op(&u0, "o.four", vec![coin(500_000 * t6, "uusdc"), coin(500_000 * t6, "uusdt"), coin(400_000 * t8, "uwbtc"), coin(600_000 * t18, "udai")], None, None, None, None, None));
         s.push(provide_op(&u1, "o.z618", vec![coin(800_000 * t6, "uusdc"), coin(800_000 * t18, "udai")], None, None, None, None, None));
         s.push(provide_op(&u0, "o.lop", vec![coin(10u128.pow(30), "ueth"), coin(20_000 * t6, "uusdt")], None, None, None, None, None));
+        s.push(provide_op(&u1, "o.big", vec![coin(10u128.pow(30), "udai"), coin(2 * 10u128.pow(30), "ueth")], None, None, None, None, None));
         self.script = s.into();
     }
 
@@ -660,7 +663,7 @@ impl PoolGen {
             // the creator declares the decimals; nothing ties them to a registry
             if let Op::Pm { msg: pm::ExecuteMsg::CreatePool { asset_decimals, .. }, .. } = &mut op {
                 for d in asset_decimals.iter_mut() {
-                    *d = *[0u8, 1, 3, 6, 9, 18].choose(&mut self.rng).unwrap();
+                    *d = *[0u8, 1, 3, 6, 9, 18, 19, 24].choose(&mut self.rng).unwrap();
                 }
             }
         }
